@@ -95,6 +95,15 @@ func genC10(c *Ctx) {
 		c.Em.Emit(Rec{Case: fmt.Sprintf("C10 neg %d", a), Impl: canonNum("neg", a, 0, false, res, p), NT: a != 0, Tags: []string{"neg", tag, "direct"}})
 	}
 
+	// history: descendants of Int that override the operators are used first in this process (the arithmetic of plain
+	// ints does not depend on what other values did before)
+	hist := "Odd := Int.bear({'+: m{|o| 'plus}, '-: m{|o| 'minus}, '*: m{|o| 'times}, '**: m{|o| 'pow}, '/: m{|o| 'div}, '//: m{|o| 'fdiv}, '%: m{|o| 'mod}, '<=>: m{|o| 'cmp}, '-%: m{'neg}})\n" +
+		"x := Odd.new(5)\n[x + 4, x - 4, x * 4, x ** 2, x / 4, x // 4, x % 4, x <=> 8, -x]\n"
+	if o := c.It.Run(hist, ""); o.Kind != "val" || o.Inspect != "[\"plus\", \"minus\", \"times\", \"pow\", \"div\", \"fdiv\", \"mod\", \"cmp\", \"neg\"]" {
+		c.Em.Emit(Rec{Src: hist, Impl: o.Canon(), NT: true, Tags: []string{"history"}, Skip: "history-program-not-as-expected"})
+	} else {
+		c.Em.Emit(Rec{Src: hist, Impl: o.Canon(), NT: true, Tags: []string{"history"}})
+	}
 	// exhaustive small square
 	w := int64(24)
 	if c.Thorough() {
